@@ -46,6 +46,7 @@ def check_property(prop, tier, units, run_unit, keep=False, jobs=8):
         with ThreadPoolExecutor(max_workers=jobs) as ex:
             results = list(ex.map(lambda u: run_unit(u, _sub(wd, u.uid), tier), mine))
         violations, undecided, kf_lines = [], [], []
+        kf_hits = {}
         obl_rows = []
         n_obl = n_dis = n_b = n_bd = 0
         functions, assumptions, cmds, engines, samples = [], [], [], set(), []
@@ -100,10 +101,17 @@ def check_property(prop, tier, units, run_unit, keep=False, jobs=8):
                     else:
                         n_dis += 1
                 elif o.status == "failed":
-                    violations.append((o, res))
+                    kf = _match_known(o, known)
+                    if kf:
+                        kf_hits.setdefault(kf["id"], []).append(o.oid)
+                        row["status"] = "known-finding"; row["finding"] = kf["id"]
+                    else:
+                        violations.append((o, res))
                 else:
                     undecided.append(f"{o.oid}: {(o.detail or 'not run')[:300]}")
                 obl_rows.append(row)
+        for fid, oids in kf_hits.items():
+            kf_lines.append(f"KNOWN-FINDING: property={prop} {fid}: {known[fid]['what']} [{len(oids)} obligation(s), e.g. {oids[0]}]")
         # ---- replay files + VIOLATION lines
         out_lines = []
         for o, res in violations:
@@ -183,6 +191,22 @@ def check_property(prop, tier, units, run_unit, keep=False, jobs=8):
             shutil.rmtree(wd, ignore_errors=True)
         else:
             print("kept", wd)
+
+
+def _match_known(o, known):
+    """a failed obligation is a known finding only if its id matches and EVERY reported failure matches the finding's
+    signature, so a second, different failure of the same obligation is still a violation"""
+    import re
+    for f in known.values():
+        m = f.get("match")
+        if not m:
+            continue
+        if not re.search(m["obligation"], o.oid):
+            continue
+        lines = [l for l in (o.detail or "").split("\n") if l.strip()]
+        if lines and all(re.search(m["detail"], l) for l in lines):
+            return f
+    return None
 
 
 def _sub(wd, uid):
